@@ -51,6 +51,9 @@ FLAVOURS = {
                                       '-fsanitize=address,undefined',
                                       '-fno-sanitize-recover=undefined',
                                       '-fno-omit-frame-pointer',
+                                      # libstdc++ annotates std::vector for ASan: an access inside the spare capacity
+                                      # of a vector is reported (library and drivers are compiled with the same flags)
+                                      '-D_GLIBCXX_SANITIZE_VECTOR',
                                       '-ffp-contract=off']),
     'tsan': dict(cxx='clang++', flags=['-O1', '-g', '-std=c++17',
                                        '-fsanitize=thread',
